@@ -1,15 +1,201 @@
 (* C02 -- HLL sketch holds exactly the per-slot maximum of every item it was fed.
-   Statements only; proofs are in Proofs/Hll*.v.  (Being extended.) *)
-From DS Require Import Base.Prelude Model.Hll Proofs.HllBase Proofs.HllArray8 Proofs.HllArray6.
+   Statements only; proofs are in Proofs/Hll*.v.
+
+   Reading guide.
+   Model (Model/Hll*.v, one definition per Rust function of hll/{sketch,list,hash_set,container,
+   array4,aux_map,array6,array8}.rs): [run_stream einit eupd ecarry lg_k t cs] is a fresh
+   HllSketch::new(lg_k, t) fed the coupon list [cs] through update_with_coupon; it is generic
+   in the estimator (einit = HipEstimator::new, eupd lg_k old new = HipEstimator::update,
+   ecarry len = set_hip_accum(container.estimate())), Model/Hll.v instantiates it with the HIP
+   estimator over primitive floats.  A result [Stuck] is a panic site of the crate
+   (unreachable!/expect/underflow/"HashSet full"/"AuxMap full").
+   Spec (Proofs/HllBase.v): [cslot lg_k c] / [cvalue c] = slot and value of a coupon;
+   [spec_regs lg_k cs j] = max value over the coupons of cs mapped to slot j (0 if none);
+   [distinct cs] = number of distinct coupons; [spec_mode lg_k d] = List | Set | Array as a
+   function of (lg_k, d) only.  [valid c] : the value field is in 1..63 (what coupon() makes).
+   [hll_abs_ok lg_k t cs s] (Proofs/HllRefine.v): sketch s has lg_k, type t, the mode
+   spec_mode lg_k (distinct cs); in list/set mode Container::iter is duplicate-free and holds
+   exactly the coupons of cs and Container::len = distinct cs; in array mode
+   Array{4,6,8}::get j = spec_regs lg_k cs j for every slot. *)
+From DS Require Import Base.Prelude Model.Hll Proofs.HllBase Proofs.HllArray8 Proofs.HllArray6
+  Proofs.HllOpenAddr Proofs.HllSet Proofs.HllAux Proofs.HllArray4 Proofs.HllRefine Proofs.HllC02.
 Open Scope N_scope.
 
-(* Array6: the 16-bit window read/write is a correct packed array of 6-bit cells *)
+(* ---- the sketch refines the textbook model: for ALL lg_k in 4..21, all three types, all
+   coupon streams (hence after every prefix): never a panic, and the observable state is the
+   Spec's -- through list -> set -> growth -> array promotion, cur_min shifts, aux exceptions *)
+Theorem c02_hll_refines :
+  forall (E : Type) (einit : N -> E) (eupd : N -> N -> N -> E -> E) (ecarry : N -> E -> E) lgk t cs,
+  4 <= lgk <= 21 -> Forall valid cs ->
+  exists s, run_stream einit eupd ecarry lgk t cs = Ok s /\ hll_abs_ok lgk t cs s.
+Proof. exact hll_refines. Qed.
+
+(* ---- order and multiplicity do not matter: two streams with the same set of coupons give
+   the same mode, the same coupon set / the same registers *)
+Theorem c02_hll_set_determined :
+  forall (E : Type) (einit : N -> E) (eupd : N -> N -> N -> E -> E) (ecarry : N -> E -> E) lgk t cs cs',
+  4 <= lgk <= 21 -> Forall valid cs -> Forall valid cs' -> same_set cs cs' ->
+  exists s s', run_stream einit eupd ecarry lgk t cs = Ok s /\ run_stream einit eupd ecarry lgk t cs' = Ok s' /\
+    sk_tag s = sk_tag s' /\ sk_len s = sk_len s' /\
+    (forall c, In c (sk_coupons s) <-> In c (sk_coupons s')) /\
+    (forall j, j < 2 ^ lgk -> sk_reg s j = sk_reg s' j).
+Proof. exact hll_set_determined. Qed.
+
+(* ---- Hll4, Hll6, Hll8 fed the same stream hand the SAME state to ANY estimator: equal
+   estimator value after identical (old, new) transitions, equal number of unhit registers,
+   equal mode and container length (the coupon-mode estimate is a function of the length) *)
+Theorem c02_hll_types_same_estimator :
+  forall (E : Type) (einit : N -> E) (eupd : N -> N -> N -> E -> E) (ecarry : N -> E -> E) lgk cs,
+  4 <= lgk <= 21 -> Forall valid cs ->
+  exists s4 s6 s8,
+    run_stream einit eupd ecarry lgk T4 cs = Ok s4 /\ run_stream einit eupd ecarry lgk T6 cs = Ok s6 /\
+    run_stream einit eupd ecarry lgk T8 cs = Ok s8 /\
+    sk_est_inputs s4 = sk_est_inputs s8 /\ sk_est_inputs s6 = sk_est_inputs s8 /\
+    sk_tag s4 = sk_tag s8 /\ sk_tag s6 = sk_tag s8 /\ sk_len s4 = sk_len s8 /\ sk_len s6 = sk_len s8.
+Proof. exact hll_types_same_estimator. Qed.
+
+(* ... in particular with the HIP estimator over binary64: estimate, upper and lower bounds
+   (any number of standard deviations) are bit-identical across the three types *)
+Theorem c02_hll_types_same_estimates :
+  forall lgk cs, 4 <= lgk <= 21 -> Forall valid cs ->
+  exists s4 s6 s8, run_stream hip_new hip_update hip_carry lgk T4 cs = Ok s4 /\
+    run_stream hip_new hip_update hip_carry lgk T6 cs = Ok s6 /\
+    run_stream hip_new hip_update hip_carry lgk T8 cs = Ok s8 /\
+    hll_estimate s4 = hll_estimate s8 /\ hll_estimate s6 = hll_estimate s8 /\
+    (forall nsd, hll_upper_bound s4 nsd = hll_upper_bound s8 nsd /\ hll_upper_bound s6 nsd = hll_upper_bound s8 nsd /\
+                 hll_lower_bound s4 nsd = hll_lower_bound s8 nsd /\ hll_lower_bound s6 nsd = hll_lower_bound s8 nsd).
+Proof. exact hll_types_same_estimates. Qed.
+
+(* ---- Array4: the invariant of DESIGN.md B.4.  [Inv4 lg_k regs a] (Proofs/HllArray4.v) for a
+   true register file [regs]: nibble < 15 -> regs j = cur_min + nibble; nibble = 15 <-> slot j is
+   in the aux map, and then regs j = aux value >= cur_min + 15; num_at_cur_min = #{j | regs j =
+   cur_min}; the aux table satisfies the open-addressing invariant with load <= 3/4. *)
+Theorem c02_array4_inv_new :
+  forall E lgk (e : E), Inv4 lgk (fun _ => 0) (a4_new lgk e) /\ 0 < a4_num (a4_new lgk e).
+Proof. exact array4_inv_new. Qed.
+
+(* preserved by Array4::update (all four branches, the decrement and the shift loop); the
+   register file becomes the per-slot maximum; the estimator sees (old, new) iff the register grows *)
+Theorem c02_array4_inv_update :
+  forall E (eupd : N -> N -> N -> E -> E) lgk regs a c,
+  4 <= lgk <= 21 -> Inv4 lgk regs a -> 0 < a4_num a -> (forall j, j < 2 ^ lgk -> regs j <= 63) -> valid c ->
+  exists a', a4_update eupd a c = Ok a' /\
+    Inv4 lgk (upd_regs regs (cslot lgk c) (cvalue c)) a' /\ 0 < a4_num a' /\
+    a4_est a' = (if regs (cslot lgk c) <? cvalue c then eupd lgk (regs (cslot lgk c)) (cvalue c) (a4_est a) else a4_est a).
+Proof. exact array4_inv_update. Qed.
+
+(* preserved by one shift_to_bigger_cur_min (same register file, cur_min + 1, rebuilt aux map) *)
+Theorem c02_array4_inv_shift :
+  forall E lgk regs (a : arr4 E), 4 <= lgk <= 21 -> Inv4 lgk regs a -> a4_num a = 0 ->
+  exists a', a4_shift_to_bigger_cur_min a = Ok a' /\ Inv4 lgk regs a' /\
+             a4_cur_min a' = a4_cur_min a + 1 /\ a4_est a' = a4_est a.
+Proof. exact array4_inv_shift. Qed.
+
+(* the `while num_at_cur_min == 0` loop terminates: 64 - cur_min rounds always suffice *)
+Theorem c02_array4_shift_loop_terminates :
+  forall E lgk regs, 4 <= lgk <= 21 -> (forall j, j < 2 ^ lgk -> regs j <= 63) ->
+  forall fuel (a : arr4 E), Inv4 lgk regs a -> 64 <= N.of_nat fuel + a4_cur_min a ->
+  exists a', a4_shift_loop fuel a = Ok a' /\ Inv4 lgk regs a' /\ 0 < a4_num a' /\ a4_est a' = a4_est a /\
+             a4_cur_min a <= a4_cur_min a'.
+Proof. exact array4_shift_loop_terminates. Qed.
+
+(* Array4::get returns the true value *)
+Theorem c02_array4_get_value :
+  forall E lgk regs (a : arr4 E) j, Inv4 lgk regs a -> j < 2 ^ lgk -> a4_get a j = Ok (regs j).
+Proof. exact array4_get_value. Qed.
+
+(* nibble packing (bytes = any array of u8 values) *)
+Theorem c02_array4_nibble_get_put :
+  forall b s v, WFb b -> v <= 15 ->
+  a4_get_raw (a4_put_raw b s v) s = v /\
+  (forall s', s' <> s -> a4_get_raw (a4_put_raw b s v) s' = a4_get_raw b s') /\ WFb (a4_put_raw b s v).
+Proof. exact array4_nibble_get_put. Qed.
+
+(* ---- Array6: the 16-bit window read/write is a correct packed array of 6-bit cells *)
 Theorem c02_array6_get_put :
   forall b s v, WFb b -> v < 64 ->
   a6_get_raw (a6_put_raw b s v) s = v /\
-  (forall s', s' <> s -> a6_get_raw (a6_put_raw b s v) s' = a6_get_raw b s') /\
-  WFb (a6_put_raw b s v).
-Proof.
-  intros b s v W Hv. split; [now apply a6_get_put_same|]. split; [|now apply a6_put_WF].
-  intros s' Hs. now apply a6_get_put_other.
-Qed.
+  (forall s', s' <> s -> a6_get_raw (a6_put_raw b s v) s' = a6_get_raw b s') /\ WFb (a6_put_raw b s v).
+Proof. exact array6_get_put. Qed.
+
+(* ---- open addressing without deletion (coupon hash set, aux map), generic in key/start/stride.
+   pos x n = (start x + n * stride x) mod 2^lg.  Odd stride: the probe sequence of x is a
+   permutation of the table. *)
+Theorem c02_openaddr_probe_permutation :
+  forall lg (start stride : N -> N),
+  (forall x, start x < 2 ^ lg) -> (forall x, N.odd (stride x) = true) ->
+  forall x,
+    (forall n m, n < 2 ^ lg -> m < 2 ^ lg -> pos lg start stride x n = pos lg start stride x m -> n = m) /\
+    (forall i, i < 2 ^ lg -> exists n, n < 2 ^ lg /\ pos lg start stride x n = i).
+Proof. exact oa_probe_permutation. Qed.
+
+(* with at least one empty cell, the probe loop (the code of HashSet::update / AuxMap::find) is
+   never stuck and returns the cell of key x, or the first empty cell on x's path when absent *)
+Theorem c02_openaddr_find :
+  forall lg (key start stride : N -> N),
+  (forall x, start x < 2 ^ lg) -> (forall x, N.odd (stride x) = true) ->
+  forall tab x, OAInv lg key start stride tab -> has_empty lg tab ->
+  exists i, i < 2 ^ lg /\
+    ((aget tab i = 0 /\ find lg key start stride tab x = Ok (i, false) /\
+      (forall j, j < 2 ^ lg -> aget tab j <> 0 -> key (aget tab j) <> x) /\
+      exists n1, n1 < 2 ^ lg /\ pos lg start stride x n1 = i /\
+        forall m, m < n1 -> aget tab (pos lg start stride x m) <> 0 /\ key (aget tab (pos lg start stride x m)) <> x)
+     \/ (aget tab i <> 0 /\ key (aget tab i) = x /\ find lg key start stride tab x = Ok (i, true))).
+Proof. exact oa_find_spec. Qed.
+
+(* writing into that empty cell keeps the invariant; no key is ever stored twice *)
+Theorem c02_openaddr_insert :
+  forall lg (key start stride : N -> N),
+  (forall x, start x < 2 ^ lg) -> (forall x, N.odd (stride x) = true) ->
+  forall tab x e n1, OAInv lg key start stride tab -> n1 < 2 ^ lg -> aget tab (pos lg start stride x n1) = 0 ->
+  (forall m, m < n1 -> aget tab (pos lg start stride x m) <> 0 /\ key (aget tab (pos lg start stride x m)) <> x) ->
+  e <> 0 -> key e = x -> OAInv lg key start stride (aset tab (pos lg start stride x n1) e).
+Proof. exact oa_insert_keeps_inv. Qed.
+
+Theorem c02_openaddr_no_duplicates :
+  forall lg (key start stride : N -> N) tab i j,
+  OAInv lg key start stride tab -> i < 2 ^ lg -> j < 2 ^ lg -> aget tab i <> 0 -> aget tab j <> 0 ->
+  key (aget tab i) = key (aget tab j) -> i = j.
+Proof. exact oa_no_duplicate_keys. Qed.
+
+(* instance: HashSet::update on a table that represents the coupon set S, not full *)
+Theorem c02_hashset_update :
+  forall lg st S c, SetRep lg st S -> hs_len st < 2 ^ lg -> c <> 0 ->
+  exists st', set_update st c = Ok st' /\ SetRep lg st' (c :: S) /\
+    (In c S -> st' = st) /\ (~ In c S -> hs_len st' = hs_len st + 1).
+Proof. exact hashset_update_spec. Qed.
+
+(* instance: AuxMap insert (with check_grow / grow), replace, get, against the finite map
+   [amaps m slot value] the table represents; none of the three unreachable!()s is reached *)
+Theorem c02_auxmap_insert :
+  forall lgk m j v, AuxInv lgk m -> j < 2 ^ lgk -> (forall v', ~ amaps m j v') -> v <> 0 ->
+  exists m', aux_insert m j v = Ok m' /\ AuxInv lgk m' /\
+    forall j' v', amaps m' j' v' <-> (j' = j /\ v' = v) \/ amaps m j' v'.
+Proof. exact aux_insert_spec. Qed.
+
+Theorem c02_auxmap_replace :
+  forall lgk m j v0 v, AuxInv lgk m -> amaps m j v0 -> v <> 0 ->
+  exists m', aux_replace m j v = Ok m' /\ AuxInv lgk m' /\
+    forall j' v', amaps m' j' v' <-> (j' = j /\ v' = v) \/ (j' <> j /\ amaps m j' v').
+Proof. exact aux_replace_spec. Qed.
+
+Theorem c02_auxmap_get :
+  forall lgk m j v, AuxInv lgk m -> amaps m j v -> aux_get m j = Ok (Some v).
+Proof. exact aux_get_some. Qed.
+
+(* ---- non-vacuity: the hypotheses are met by concrete non-trivial streams.
+   ex_stream (lg_k 4, Hll4): cur_min shifts 0 -> 3 with two live aux exceptions;
+   ex_stream2 (lg_k 10): 200 distinct coupons through list -> set(5) -> set(7) -> array *)
+Example c02_example_streams_valid : Forall valid ex_stream /\ Forall valid ex_stream2.
+Proof. exact ex_stream_valid. Qed.
+
+Example c02_example_array4_state :
+  exists a m, urun 4 T4 ex_stream = Ok (mkSketch 4 (MArr4 a)) /\
+  a4_cur_min a = 3 /\ a4_num a = 14 /\ a4_aux a = Some m /\ length (aux_pairs m) = 2%nat.
+Proof. exact ex_stream_state. Qed.
+
+Example c02_example_modes :
+  (exists st t, urun 10 T6 (firstn 20 ex_stream2) = Ok (mkSketch 10 (MSet st t)) /\ hs_lg st = 5 /\ hs_len st = 20) /\
+  (exists st t, urun 10 T6 (firstn 60 ex_stream2) = Ok (mkSketch 10 (MSet st t)) /\ hs_lg st = 7 /\ hs_len st = 60) /\
+  (exists a, urun 10 T6 ex_stream2 = Ok (mkSketch 10 (MArr6 a)) /\ a6_nz a = 824).
+Proof. exact ex_stream2_modes. Qed.
